@@ -192,6 +192,26 @@ CLAIMS["C05"]["text"] = "Padding twins (SWEEP: the same region with the alignmen
 CLAIMS["C19"]["text"] = "ELFNAME names judged by an independent oracle (NUL-terminated bytes at the name index inside the designated string table, also tables that do not start with NUL); " + CLAIMS["C19"]["text"]
 CLAIMS["C03"]["text"] = "module iterator judged on every loaded region (not only spec-conformant ones) against the module tags of the specification's walk; " + CLAIMS["C03"]["text"]
 
+TABLES = ("IMPL-BLOCK TABLES (tools/gen_fns.py IMPL_TABLES -> Gen.Fns.tbl_*, Props/FnsTbl*.lean): for 64 impl / trait blocks of the three crates EVERY function of the block in source "
+          "order with its return type, translated body and inputs is compared with the reviewed table (tbl_*_eq, by rfl) - one-line forwarders and accessors included, so a typed getter "
+          "that names another tag type, an accessor that returns another field, a changed body and any function ADDED to or REMOVED from the block breaks an obligation; meaning "
+          "theorems on top: ")
+for _p, _t in (("C04", "mbi_typed_getters_forward (each of the 18 plain getters is get_tag::<T>() at the type its return type names), tables of the tag impls, vbe_flag_bits"),
+               ("C11", "hdr_typed_getters_forward, header_tag_common_accessors (typ/flags/size of all 11 header tags forward to the HeaderTagHeader accessor of that name), tables of Multiboot2Header, the basic header, HeaderTagHeader and every header tag"),
+               ("C10", "hb_new_eq (Multiboot2BasicHeader::new stores MAGIC, arch, length and calcChecksum MAGIC arch length)"),
+               ("C12", "hb_new_eq (the header the builder creates carries the model's checksum)"),
+               ("C19", "ElfSection / ElfSectionInner32 / ElfSectionInner64 accessor tables + Layout.elf_inner_layouts_match (packed ELF32 / ELF64 field offsets = the offsets the model's elfSecAt reads), elf_iter_size_hint_eq, elf_section_flags_bits"),
+               ("C18", "efi_iter_size_hint_eq (size_hint = (entries - i, Some(entries - i)) = the model's len)"),
+               ("C05", "fb_eq_compares_declared_extent (== on framebuffer tags compares the header, the six fields and the buffer slice - nothing behind the declared size)"),
+               ("C07", "elf_tag_new_eq, fb_tag_new_eq, efi_new_from_map_eq, mmap_new_eq (header type and the content slices in struct order), TagHeader::new / HeaderTagHeader::new, FramebufferType::serialize pinned"),
+               ("C16", "elf_tag_new_eq, fb_tag_new_eq, efi_new_from_map_eq, mmap_new_eq"),
+               ("C20", "tag_type_eq_id_eq (TagType == TagTypeId compares the numbers), tag_type_id_conversions_via_u32, all six mixed PartialEq impls and the id wrappers of both identifier families"),
+               ("C02", "mbi_end_address_eq (end_address = start_address + total_size), BootInformationHeader::new"),
+               ("C03", "DynSizedStructure::header / payload, BytesRef::deref, module_iter"),
+               ("C14", "DynSizedStructure::header / payload, BytesRef::deref, the Header trait's method set"),
+               ("C01", "ELF accessor tables + Layout.elf_inner_layouts_match")):
+    CLAIMS[_p]["text"] = TABLES + _t + ". " + CLAIMS[_p]["text"]
+
 NOT_YET = "not yet claimed: the Lean model, theorems and correspondence check for this property are still being built (DESIGN.md section 12 gives the order); the technique applies and the property will be claimed"
 
 
